@@ -744,7 +744,8 @@ def _stream_fields(draw, mode, first):
             f["media"] = media
     else:
         for k in ("width", "height", "duration"):
-            _optional(draw, f, k, _u32, 1, 2)
+            # later steps often go back to a boundary value (0 = "unset") after an earlier step set something else
+            _optional(draw, f, k, _u32 if first else st.one_of(_u32, st.sampled_from([0, 0, 1])), 1 if first else 2, 2 if first else 3)
     return f
 
 
@@ -1202,6 +1203,9 @@ def _apply_stream(obj, mode, f, m, out):
     kw.update(given)
     if stream_type in MEDIA_FIELDS:
         vals = {k: v for k, v in given.items() if k in MEDIA_FIELDS[stream_type]}
+        if m["media"] is not None and m["media"]["kind"] == stream_type and any(
+                v == 0 and m["media"]["vals"].get(k) for k, v in vals.items()):
+            out.label("media_value_reset_to_0_by_update")
         if vals:
             _media_set(m, stream_type, vals)
             out.label("media_" + stream_type)
@@ -1371,6 +1375,10 @@ def expected_from_model(ctype, m):
                 e["media_" + k] = v
             if media["kind"] != "audio":
                 e["media_dimensions"] = [media["vals"]["width"], media["vals"]["height"]]
+        elif media is not None:
+            # everything was set (back) to 0: whether the empty sub-message is kept is not asserted, the values are
+            for k in media["vals"]:
+                e["media_" + k] = 0
     elif ctype == "channel":
         for k in ("email", "website_url", "cover_url"):
             e[k] = m[k]
@@ -1843,12 +1851,12 @@ def legacy_v0_case(draw):
         fee = {"currency": draw(st.sampled_from(["LBC", "BTC", "USD"])), "address": draw(_address)}
         k = draw(st.integers(0, 3))
         if k == 0:
-            fee["int"] = draw(st.integers(1, 10 ** 6))
+            fee["int"] = draw(st.one_of(st.integers(0, 10 ** 6), st.just(0)))      # "free" claims carried an explicit zero fee
         elif k == 1:
             fee["dyadic"] = draw(_dyadic)
         elif k == 2:
             fee["float"] = draw(st.one_of(st.floats(0.001, 1e9, allow_nan=False),
-                                          st.sampled_from([0.1, 0.29, 0.07, 1.1, 0.3, 4.99, 1.0, 10.5])))
+                                          st.sampled_from([0.1, 0.29, 0.07, 1.1, 0.3, 4.99, 1.0, 10.5, 0.0])))
         else:
             fee["str"] = _spell_fixed(draw(st.integers(1, 10 ** 12)), 2 if fee["currency"] == "USD" else 8, True)
         c["fee"] = fee
